@@ -695,6 +695,81 @@ Section Proofs.
 End Proofs.
 
 (* ------------------------------------------------------------------ *)
+(* re-signing: signatures already present never influence what signing produces *)
+
+Section Resign.
+  Variables privkey pubkey sigt : Type.
+  Variable pub : privkey -> pubkey.
+  Variable sign : privkey -> bytes -> sigt.
+  Variable H : bytes -> res bytes.
+
+  Local Notation ad := (ad pubkey sigt).
+  Local Notation provider := (provider pubkey sigt).
+
+  Lemma sign_eps_erase (a a' : ad) x x' k fetch :
+    a_prev a = a_prev a' -> a_entries a = a_entries a' -> a_provider a = a_provider a' ->
+    a_ctx a = a_ctx a' -> a_rm a = a_rm a' -> x_override x = x_override x' ->
+    forall ps, sign_eps pub sign H a x k fetch ps = sign_eps pub sign H a' x' k fetch (map erase_psig ps).
+  Proof.
+    intros E1 E2 E3 E4 E5 E6. induction ps as [|p r IH]; [reflexivity|].
+    cbn [map sign_eps].
+    assert (P : ep_payload H a x p = ep_payload H a' x' (erase_psig p)).
+    { unfold ep_payload, ep_raw. rewrite E1, E2, E3, E4, E5, E6. destruct p; reflexivity. }
+    assert (M : is_main a p = is_main a' (erase_psig p)).
+    { unfold is_main. rewrite E3. destruct p; reflexivity. }
+    rewrite P, M, IH. destruct p; reflexivity.
+  Qed.
+
+  Lemma sign_ad_erase k (a : ad) :
+    sign_ad pub sign H k (erase_sigs a) = (a1 <- sign_ad pub sign H k a ;; Ok (set_ext a1 (a_ext (erase_sigs a)))).
+  Proof.
+    unfold sign_ad, signature_payload. destruct a as [pv pr ad0 sg en cx md rm ex]. cbn.
+    destruct en as [ent|]; [|reflexivity]. cbn.
+    destruct (sum256 H _) as [pl| |]; cbn; try reflexivity.
+    destruct (seal pub sign sig_dom ad_codec pl k); reflexivity.
+  Qed.
+
+  (* Sign / SignWithExtendedProviders give the same result on an advertisement and on the
+     same advertisement with every signature removed: the result depends on the signed
+     values and the keys only *)
+  Theorem resign_erase (a : ad) k fetch :
+    sign_plain pub sign H a k = sign_plain pub sign H (erase_sigs a) k /\
+    sign_with_eps pub sign H a k fetch = sign_with_eps pub sign H (erase_sigs a) k fetch.
+  Proof.
+    split.
+    - unfold sign_plain. destruct a as [pv pr ad0 sg en cx md rm [x|]]; cbn; [reflexivity|].
+      unfold sign_ad, signature_payload. cbn. reflexivity.
+    - unfold sign_with_eps. rewrite sign_ad_erase.
+      destruct (sign_ad pub sign H k a) as [a1| |] eqn:S1; cbn [bind]; try reflexivity.
+      assert (F : a_prev a1 = a_prev a /\ a_entries a1 = a_entries a /\ a_provider a1 = a_provider a /\
+                  a_ctx a1 = a_ctx a /\ a_rm a1 = a_rm a /\ a_ext a1 = a_ext a /\ a_addrs a1 = a_addrs a /\ a_md a1 = a_md a).
+      { unfold sign_ad in S1. destruct (signature_payload H a false); try discriminate. cbn [bind] in S1.
+        destruct (seal pub sign sig_dom ad_codec a0 k); try discriminate. cbn [bind] in S1.
+        apply Ok_inj in S1. subst a1. repeat split; reflexivity. }
+      destruct F as (F1 & F2 & F3 & F4 & F5 & F6 & F7 & F8).
+      cbn [a_ext set_ext]. rewrite F6. unfold erase_sigs. cbn [a_ext].
+      destruct (a_ext a) as [x|] eqn:X; cbn [option_map].
+      + cbn [x_providers x_override].
+        rewrite (sign_eps_erase a1 (set_ext a1 (Some (Ext (map erase_psig (x_providers x)) (x_override x))))
+                   x (Ext (map erase_psig (x_providers x)) (x_override x)) k fetch) by reflexivity.
+        destruct (sign_eps pub sign H _ _ k fetch (map erase_psig (x_providers x))) as [ps'| |]; cbn [bind]; try reflexivity.
+        assert (E : existsb (is_main a1) ps' = existsb (is_main (set_ext a1 (Some (Ext (map erase_psig (x_providers x)) (x_override x))))) ps') by reflexivity.
+        rewrite <- E. destruct (negb _ && negb _)%bool; reflexivity.
+      + destruct a1; cbn in *. subst. reflexivity.
+  Qed.
+
+  (* hence: two values of the struct that agree on everything but signatures are signed alike *)
+  Theorem resign_same_values (a b : ad) k fetch :
+    erase_sigs a = erase_sigs b ->
+    sign_plain pub sign H a k = sign_plain pub sign H b k /\
+    sign_with_eps pub sign H a k fetch = sign_with_eps pub sign H b k fetch.
+  Proof.
+    intro E. destruct (resign_erase a k fetch) as [A1 A2]. destruct (resign_erase b k fetch) as [B1 B2].
+    rewrite A1, A2, B1, B2, E. auto.
+  Qed.
+End Resign.
+
+(* ------------------------------------------------------------------ *)
 (* statements of props/Properties_C05.v that combine lemmas *)
 
 Section Combined.
